@@ -61,11 +61,11 @@ def repo_headers():
     return sorted(glob.glob(os.path.join(REPO, "include", "*.h")))
 
 
-def harness_object(srcfile, variant):
+def harness_object(srcfile, variant, defines=()):
     """compile one harness TU (cached by content hash of everything it can see)"""
     cflags, _ = VARIANTS[variant]
     deps = [srcfile] + common_headers() + repo_headers()
-    key = sha(variant, " ".join(cflags), *[file_bytes(d) for d in deps])
+    key = sha(variant, " ".join(cflags), " ".join(defines), *[file_bytes(d) for d in deps])
     odir = os.path.join(BUILD, "harness", variant)
     os.makedirs(odir, exist_ok=True)
     out = os.path.join(odir, os.path.basename(srcfile).rsplit(".", 1)[0] + "-" + key + ".o")
@@ -73,7 +73,7 @@ def harness_object(srcfile, variant):
         return out
     tmp = out + ".%d.tmp" % os.getpid()
     cmd = [CXX, "-std=gnu++17", "-Wall", "-Wno-unused-function", "-Wno-deprecated-declarations"] + cflags + \
-          ["-I", os.path.join(REPO, "include"), "-I", SRC, "-c", srcfile, "-o", tmp]
+          ["-D" + d for d in defines] + ["-I", os.path.join(REPO, "include"), "-I", SRC, "-c", srcfile, "-o", tmp]
     run_cmd(cmd)
     os.replace(tmp, out)
     return out
@@ -124,6 +124,44 @@ def build_harness(p, rundir, variant=None):
     return out
 
 
+def build_fuzzer(p, fz, rundir):
+    t0 = time.time()
+    libobjs = build_lib("fuzz", os.path.join(rundir, "lib-fuzz"))
+    srcs = harness_sources(p)
+    objs = []
+    for sfile in srcs:
+        objs.append(harness_object(sfile, "fuzz", () if "engine.cpp" in sfile else (fz["define"],)))
+    out = os.path.join(rundir, fz["name"])
+    link(objs + libobjs, out, "fuzz", ["-lrapidcheck", "-lpthread"])
+    log("[build] %s (libFuzzer) in %.1fs" % (fz["name"], time.time() - t0))
+    return out
+
+
+def fuzz_outcome(od):
+    """libFuzzer artifacts in od -> (hard, soft): crash-/leak- are violations, timeout/slow/oom are load noise"""
+    hard = sorted(glob.glob(os.path.join(od, "crash-*")) + glob.glob(os.path.join(od, "leak-*")))
+    soft = sorted(glob.glob(os.path.join(od, "timeout-*")) + glob.glob(os.path.join(od, "oom-*")))
+    return hard, soft
+
+
+def parse_fuzz_log(path):
+    execs, cov, ft = 0, 0, 0
+    try:
+        for l in open(path, errors="replace"):
+            if "stat::number_of_executed_units:" in l:
+                execs = int(l.split(":")[-1])
+            if " cov: " in l and " ft: " in l:
+                t = l.split()
+                try:
+                    cov = int(t[t.index("cov:") + 1])
+                    ft = int(t[t.index("ft:") + 1])
+                except Exception:
+                    pass
+    except Exception:
+        pass
+    return execs, cov, ft
+
+
 def setup_all():
     todo = []
     for pid, p in props.PROPS.items():
@@ -132,6 +170,12 @@ def setup_all():
                 todo.append((s, v))
         for s, v in p.get("extra_objects", []):
             todo.append((os.path.join(SRC, s), v))
+        for fz in p.get("fuzzers", []):
+            for s in harness_sources(p):
+                todo.append((s, "fuzz") if "engine.cpp" in s else (s, "fuzz", (fz["define"],)))
+        if p.get("valgrind_sample"):
+            for s in harness_sources(p):
+                todo.append((s, "plain"))
     todo = sorted(set(todo))
     t0 = time.time()
     with ThreadPoolExecutor(max_workers=JOBS) as ex:
@@ -423,6 +467,33 @@ def run_check(pid, tier, seed):
             e["VERIF_SEED"] = str(seed)
             od = os.path.join(sdir, "mode%02d" % j)
             shards.append(Shard(100 + j, [mode_binary, "--out", od, "--known", KNOWN] + extra_args + ["--mode"] + m, e, od))
+        fuzz_shards = []
+        for fz in p.get("fuzzers", []):
+            fbin = build_fuzzer(p, fz, rundir)
+            for j in range(cfg.get("fuzz_jobs", 8)):
+                od = os.path.join(sdir, "%s-%02d" % (fz["name"], j))
+                cdir = os.path.join(od, "corpus")
+                os.makedirs(cdir, exist_ok=True)
+                # half of the jobs start from the seed corpus (+ saved regressions), half from an empty corpus
+                if fz.get("corpus") and j % 2 == 0:
+                    for f in glob.glob(os.path.join(VERIF, fz["corpus"], "*")):
+                        shutil.copy(f, cdir)
+                for f in glob.glob(os.path.join(VERIF, "replays", pid, "*." + fz["name"])):
+                    if not os.path.basename(f).startswith("found-"):
+                        shutil.copy(f, cdir)
+                e = dict(env, VF_STATS_DIR=od)
+                e["ASAN_OPTIONS"] = "detect_leaks=1:quarantine_size_mb=16:allocator_may_return_null=1:handle_abort=1"
+                e["UBSAN_OPTIONS"] = "halt_on_error=1:print_stacktrace=1"
+                cmd = [fbin, cdir, "-seed=%d" % (seed * 100 + j + 1), "-runs=%d" % cfg["fuzz_runs"], "-max_len=%d" % fz["max_len"],
+                       "-artifact_prefix=" + od + "/", "-print_final_stats=1", "-timeout=25", "-rss_limit_mb=4000",
+                       "-detect_leaks=1", "-use_value_profile=1"]
+                if fz.get("dict"):
+                    cmd.append("-dict=" + os.path.join(VERIF, fz["dict"]))
+                sh = Shard(400 + len(fuzz_shards), cmd, e, od)
+                sh.fuzzer = fz
+                sh.fbin = fbin
+                fuzz_shards.append(sh)
+                shards.append(sh)
         fill = p.get("fill_differential")
         if fill:
             # heap-fill differential (uninitialised reads): every shard runs a second time with another
@@ -483,7 +554,45 @@ def run_check(pid, tier, seed):
         if timed_out:
             inconclusive = True
             log("[warn] %s: wall-clock guard fired; run is inconclusive, not a violation" % pid)
-        failed = [s for s in shards if s.rc not in (0, None) and not getattr(s, "twin_of", None)]
+        failed = [s for s in shards if s.rc not in (0, None) and not getattr(s, "twin_of", None) and not getattr(s, "fuzzer", None)]
+        fuzz_tot = {"execs": 0, "cov": 0, "ft": 0, "parsed_with_entries": 0, "rejected_with_parse_error": 0}
+        seen_fuzz_sig = set()
+        for fs in fuzz_shards:
+            ex_, cov_, ft_ = parse_fuzz_log(fs.logpath)
+            fuzz_tot["execs"] += ex_
+            fuzz_tot["cov"] = max(fuzz_tot["cov"], cov_)
+            fuzz_tot["ft"] = max(fuzz_tot["ft"], ft_)
+            try:
+                for l in open(os.path.join(fs.outdir, "fuzzstats.txt")):
+                    k, v = l.strip().split("=")
+                    fuzz_tot[k] = fuzz_tot.get(k, 0) + int(v)
+            except Exception:
+                pass
+            hard, soft = fuzz_outcome(fs.outdir)
+            cands = [(a, 25) for a in hard]
+            for a in soft:
+                cands.append((a, 250))  # only a violation if it reproduces at 10x the limit
+            for art, tmo in cands:
+                sig = [l for l in fs.log_tail(400).splitlines() if l.startswith("SUMMARY:") or l.startswith("C04 ORACLE FAILURE")]
+                sig = (sig[-1] if sig else os.path.basename(art).split("-")[0])
+                fails = 0
+                out = ""
+                for _ in range(3):
+                    r = subprocess.run([fs.fbin, "-timeout=%d" % tmo, "-rss_limit_mb=4000", art], env=fs.env, stdout=subprocess.PIPE,
+                                       stderr=subprocess.STDOUT, cwd=fs.outdir)
+                    out = r.stdout.decode(errors="replace")
+                    fails += r.returncode != 0
+                if fails < 3:
+                    unreproduced += 1
+                    continue
+                if sig in seen_fuzz_sig:
+                    continue
+                seen_fuzz_sig.add(sig)
+                d = os.path.join(VERIF, "replays", pid)
+                os.makedirs(d, exist_ok=True)
+                dst = os.path.join(d, "found-%s.%s" % (sha(file_bytes(art)), fs.fuzzer["name"]))
+                shutil.copy(art, dst)
+                violations.append((dst, out[-3000:]))
         # crash / hang in-process (no shrunk case): re-run up to three such shards isolated (each case in a
         # forked child) so that the crash becomes an ordinary failure that can be shrunk; in parallel, bounded
         crashed = [s for s in failed if not os.path.exists(os.path.join(s.outdir, "found.case"))
@@ -536,8 +645,12 @@ def run_check(pid, tier, seed):
             else:
                 unreproduced += 1
                 log("[warn] %s: failing case %s did not reproduce on replay (harness problem, not reported)" % (pid, dst))
-        dirs = [s.outdir for s in shards if not getattr(s, "twin_of", None) and s.idx != 300]
+        dirs = [s.outdir for s in shards if not getattr(s, "twin_of", None) and s.idx != 300 and not getattr(s, "fuzzer", None)]
         tot = merge_stats(dirs)
+        if fuzz_shards:
+            tot["evaluations"] += fuzz_tot["execs"]
+            tot["notes"]["libfuzzer"] = ["%d processes, %d executions in total, best cov=%d ft=%d; inputs parsed with entries=%d, rejected with a parse error=%d" % (
+                len(fuzz_shards), fuzz_tot["execs"], fuzz_tot["cov"], fuzz_tot["ft"], fuzz_tot["parsed_with_entries"], fuzz_tot["rejected_with_parse_error"])]
         if fill:
             tot["notes"]["heap_fill_differential"] = ["every shard re-run with malloc_fill_byte=0x55 and compared case by case with the 0xAA run"]
         if vg:
@@ -576,6 +689,16 @@ def run_replay(pid, case):
         if "custom" in p:
             import custom
             return getattr(custom, p["custom"] + "_replay")(sys.modules[__name__], pid, p, case, rundir, env)
+        for fz in p.get("fuzzers", []):
+            if case.endswith("." + fz["name"]):
+                fbin = build_fuzzer(p, fz, rundir)
+                e = dict(env, ASAN_OPTIONS="detect_leaks=1:quarantine_size_mb=16:allocator_may_return_null=1")
+                r = subprocess.run([fbin, "-timeout=250", os.path.abspath(case)], env=e, stdout=subprocess.PIPE, stderr=subprocess.STDOUT)
+                print(r.stdout.decode(errors="replace")[-4000:])
+                if r.returncode != 0:
+                    print("VIOLATION property=%s replay=%s" % (pid, case))
+                    return 1
+                return 0
         binary = build_harness(p, rundir)
         rc, out = replay_once(binary, os.path.abspath(case), env, extra_args=p.get("args", []))
         print(out)
